@@ -9,6 +9,7 @@ after every transition (and the open-socket bound inside it).
 from __future__ import annotations
 
 import errno
+import itertools
 import io
 import socket
 import ssl
@@ -37,11 +38,15 @@ STATUS_MENU = ["200ka", "200close", "short", "body-reset", "body-timeout", "body
                # a receive-side OSError that is neither a ConnectionError nor a timeout (EHOSTUNREACH: route lost),
                # before the status line and in the middle of the body
                "unreach", "body-unreach",
+               # a chunked body that is complete up to and including the zero-size chunk line, then EOF instead of the
+               # final CRLF: every byte of the payload was delivered, the peer hung up
+               "chunked-noterm",
                # a retryable status that asks the client to wait: the wait itself is an environment step
                "503ra"]
 SLEEP_MENU = ["ok", "intr"]
 # answers after which the connection is clean and may be kept: complete keep-alive responses
 CLEAN_ANSWERS = frozenset(["200ka", "301", "503", "503ra", "chunked"])
+COMPLETE_THEN_EOF = frozenset(["chunked-noterm"])
 MENUS = {"connect": CONNECT_MENU, "tunnel": TUNNEL_MENU, "tls": TLS_MENU, "send": SEND_MENU, "status": STATUS_MENU,
          "sleep": SLEEP_MENU}
 
@@ -156,6 +161,8 @@ class C01Server(Server):
             return [w.intr()]
         if a == "chunked":
             return [response(200, BODY, framing="chunked", chunks=[4, 6])]
+        if a == "chunked-noterm":
+            return [b"HTTP/1.1 200 OK\r\nTransfer-Encoding: chunked\r\n\r\n4\r\n0123\r\n6\r\n456789\r\n0\r\n", EOF]
         if a == "chunked-cut":
             return [b"HTTP/1.1 200 OK\r\nTransfer-Encoding: chunked\r\n\r\n4\r\n0123\r\n6\r\n45", EOF]
         raise HarnessError(a)
@@ -193,6 +200,8 @@ class World:
         self.last_answer = {}  # socket id -> what the server did with the last request on it
         self.out = []  # outstanding streaming responses
         self.parked = []  # responses released unread: kept referenced so GC timing plays no role
+        self.done = []  # responses the caller has read to their end, closed, or seen fail: the caller may well keep the
+        #                 object (headers, status) - nothing may depend on it being garbage-collected
         self.injected = []  # BaseException objects handed to the code under test
         kw = dict(maxsize=cfg["maxsize"], block=cfg["block"], retries=mk_retries(cfg["retries"]), timeout=5.0)
         kind = cfg["kind"]
@@ -265,35 +274,35 @@ class World:
                     r = self.out[op[1]]
                     if k == "read":
                         r.read()
-                        self.out.pop(op[1])
+                        self.done.append(self.out.pop(op[1]))
                     elif k == "read3":
                         r.read(3)
                     elif k == "release":
                         r.release_conn()
-                        self.parked.append(self.out.pop(op[1]))
+                        self.parked.append(self.out.pop(op[1]))  
                     elif k == "drain":
                         r.drain_conn()
-                        self.out.pop(op[1])
+                        self.done.append(self.out.pop(op[1]))
                     elif k == "close":
                         r.close()
-                        self.out.pop(op[1])
+                        self.done.append(self.out.pop(op[1]))
                     elif k == "stream":
                         for _ in r.stream(4):
                             pass
-                        self.out.pop(op[1])
+                        self.done.append(self.out.pop(op[1]))
                     elif k == "iter":
                         for _ in r:
                             pass
-                        self.out.pop(op[1])
+                        self.done.append(self.out.pop(op[1]))
                     elif k == "read1":
                         while r.read1(4):
                             pass
-                        self.out.pop(op[1])
+                        self.done.append(self.out.pop(op[1]))
                     elif k == "readinto":
                         buf = bytearray(4)
                         while r.readinto(buf):
                             pass
-                        self.out.pop(op[1])
+                        self.done.append(self.out.pop(op[1]))
                     res = ("ok",)
             except EmptyPoolError as e:
                 exc = e
@@ -305,7 +314,7 @@ class World:
                 res = ("raised", type(e).__name__)
                 if k != "req" and op[1] < len(self.out):
                     # the response failed: the caller is done with it
-                    self.out.pop(op[1])
+                    self.done.append(self.out.pop(op[1]))
         return res, exc
 
     # ---- invariants -------------------------------------------------------------------
@@ -361,7 +370,10 @@ class World:
             if so.closed:
                 continue
             la = self.last_answer.get(so.sid)
-            if la is not None and (la not in CLEAN_ANSWERS or so.rx):
+            # (an answer that was delivered in full and followed by the peer's EOF is finished too: what is left on the
+            # socket is the hang-up itself, which the checkout test sees - the ordinary fate of an idle connection)
+            done_then_eof = la in COMPLETE_THEN_EOF and all(x is EOF for x in so.rx)
+            if la is not None and not done_then_eof and (la not in CLEAN_ANSWERS or so.rx):
                 bad("unfinished-exchange-left-in-pool", {"socket": so.sid, "last_answer": la, "pending": len(so.rx)},
                     "a connection whose exchange did not end cleanly is closed, not pooled", answer=la)
         if cfg["block"] and len(q) + len(holders) > cfg["maxsize"]:
@@ -492,6 +504,116 @@ def plan(thorough):
     return passes
 
 
+# ------------------------------------------------------------------ the dial itself (real create_connection)
+# simnet replaces urllib3.util.connection.create_connection; this family drives the REAL function over a fake socket
+# module: a host that resolves to several addresses, each address answering one of DIAL_MENU at the step it names.
+DIAL_MENU = ["ok", "socket-fails", "sockopt-fails", "bind-fails", "refused", "timeout"]
+
+
+class _FakeSock:
+    def __init__(self, log, plan):
+        self.log, self.plan = log, plan
+        self.closed = False
+        self.connected = False
+        log.append(self)
+
+    def setsockopt(self, *a):
+        if self.plan == "sockopt-fails":
+            raise OSError(errno.ENOPROTOOPT, "Protocol not available")
+
+    def settimeout(self, t):
+        self.timeout = t
+
+    def bind(self, addr):
+        if self.plan == "bind-fails":
+            raise OSError(errno.EADDRNOTAVAIL, "Cannot assign requested address")
+
+    def connect(self, sa):
+        if self.plan == "refused":
+            raise ConnectionRefusedError(errno.ECONNREFUSED, "refused")
+        if self.plan == "timeout":
+            raise socket.timeout("timed out")
+        self.connected = True
+
+    def close(self):
+        self.closed = True
+
+
+def run_dial(case):
+    """-> violations [(clause, sig, observed, expected)] for one vector of per-address answers"""
+    import types
+    import urllib3.util.connection as uc
+    answers = case["answers"]
+    log = []
+    it = iter(answers)
+    fake = types.SimpleNamespace(**{k: getattr(socket, k) for k in dir(socket) if not k.startswith("__")})
+
+    def getaddrinfo(host, port, family=0, type=0, proto=0, flags=0):
+        return [(socket.AF_INET, socket.SOCK_STREAM, 6, "", ("192.0.2.%d" % (i + 1), port)) for i in range(len(answers))]
+
+    def mk(af, socktype, proto):
+        a = next(it)
+        if a == "socket-fails":
+            raise OSError(errno.EMFILE, "Too many open files")
+        return _FakeSock(log, a)
+
+    fake.getaddrinfo, fake.socket = getaddrinfo, mk
+    saved = uc.socket
+    uc.socket = fake
+    out = []
+    got, exc = None, None
+    try:
+        try:
+            real = simnet._real.get("create_connection") or uc.create_connection  # simnet keeps the function it replaced
+            if real.__module__ != "urllib3.util.connection":
+                raise HarnessError("the dial family must drive urllib3's own create_connection, got %r" % (real,))
+            got = real(("multi.test", 80), timeout=3.0, source_address=("0.0.0.0", 0) if case["bind"] else None,
+                                         socket_options=[(6, 1, 1)] if case["opts"] else None)
+        except BaseException as e:  # noqa: BLE001
+            exc = e
+    finally:
+        uc.socket = saved
+    sig = {"op": "dial", "addresses": len(answers), "first_ok": answers.index("ok") if "ok" in answers else None}
+    effective = [a if (a != "bind-fails" or case["bind"]) and (a != "sockopt-fails" or case["opts"]) else "ok" for a in answers]
+    want_ok = "ok" in effective
+    if want_ok:
+        k = effective.index("ok")
+        if got is None or not getattr(got, "connected", False):
+            out.append(("dial-failed-although-an-address-answers", sig, repr(exc)[:200], "the socket connected to address %d" % k))
+    else:
+        if exc is None:
+            out.append(("dial-succeeded-without-a-peer", sig, repr(got), "OSError"))
+        elif not isinstance(exc, OSError):
+            out.append(("foreign-exception", dict(sig, exc=type(exc).__name__), repr(exc)[:200], "OSError / socket.timeout of the last address"))
+    stray = [i for i, so in enumerate(log) if so is not got and not so.closed]
+    if stray:
+        out.append(("socket-leak", sig, {"unclosed_sockets_of_failed_addresses": stray, "answers": answers}, "every socket of an address that failed is closed"))
+    if got is not None and got.closed:
+        out.append(("returned-socket-closed", sig, answers, "open"))
+    return out
+
+
+def dial_task(task):
+    n, bind, opts = task
+    acc = Acc()
+    for answers in itertools.product(DIAL_MENU, repeat=n):
+        case = {"family": "dial", "answers": list(answers), "bind": bind, "opts": opts}
+        acc.n += 1
+        acc.counters["dial_vectors"] += 1
+        acc.counters["transitions"] += 1
+        vs = run_dial(case)
+        acc.outcomes[("dial", "ok" in answers, len(vs) > 0)] += 1
+        for clause, sig, obs, exp in vs:
+            acc.violation(clause, sig, case, observed=obs, expected=exp)
+    return acc
+
+
+def _dispatch(task):
+    if task and task[0] == "dial":
+        return dial_task(task[1:])
+    return explore_config(task)
+
+
 def run(ctx):
     passes = plan(ctx.thorough)
     tasks = []
@@ -507,6 +629,7 @@ def run(ctx):
         c, dev, depth = t[0], t[1], t[2]
         return (depth ** 2) * (1 + dev) * {"False": 1, "0": 1, "1": 2, "R2": 4, "S0": 3}[c["retries"]] * (1 if c["preload"] else 2) * c["maxsize"]
     acc = ctx.gather(explore_config, tasks, weight=weight)
+    acc.merge(ctx.gather(_dispatch, [("dial", n, b, o) for n in ((1, 2, 3) if not ctx.thorough else (1, 2, 3, 4)) for b in (False, True) for o in (False, True)]))
     states = acc.counters["states"]
     answers = {k for k in acc.counters if k.startswith("answer:")}
     want = {"answer:%s:%s" % (k, m) for k, menu in MENUS.items() for m in menu}
@@ -537,6 +660,10 @@ def run(ctx):
 
 def replay(case):
     acc = Acc()
+    if case.get("family") == "dial":
+        for clause, sig, obs, exp in run_dial(case):
+            acc.violation(clause, sig, case, observed=obs, expected=exp)
+        return {"violations": acc.viol}
     cfg = case["cfg"]
     w = World(cfg)
     trace = []
